@@ -247,7 +247,7 @@ def gen_request(rng, rid, allow_fail=True, allow_bin=True):
     return f"{kind}{rid}:" + ",".join(specs), kind, specs
 
 
-def gen_session(rng, n_steps, faults=False, cancel=True, with_drop=False):
+def gen_session(rng, n_steps, faults=False, cancel=True, with_drop=False, pauses=False):
     """A random schedule against the rule-abiding server.  -> (labels, info)"""
     labels = ["D0"]
     info = {"requests": {}, "cancelled": set(), "notified": [], "fault": None, "dropped": False}
@@ -271,6 +271,14 @@ def gen_session(rng, n_steps, faults=False, cancel=True, with_drop=False):
             labels.append(rng.choice(["D0", "D0", "D1", "D2", "D3", "D7", "D20"]))
         elif r < 0.93:
             labels.append("t" + str(rng.choice([1, 30, 50, 99, 100, 101, 250])))
+        elif r < 0.955 and pauses:
+            # back-pressure episode: the peer stops reading, something is issued, time passes, it reads again
+            rid += 1
+            lab, kind, specs = gen_request(rng, rid, allow_bin=False)
+            info["requests"][rid] = (kind, specs)
+            live.append(rid)
+            pre = ["S*", "D0", "S*", "D0"] if rng.random() < 0.6 else []      # often right after a reply: inside the re-idle window
+            labels += pre + ["p", lab, "t" + str(rng.choice([30, 99, 100, 150, 250])), "u"]
         elif r < 0.97 and cancel and live:
             c = rng.choice(live)
             live.remove(c)
@@ -381,6 +389,10 @@ def judge_replies(r, info):
                 exp = expected_result(kind, specs)
                 if got != exp:
                     out.append(f"request {rid} ({kind}: {[spec_line(s) for s in specs]}) resolved with {got[:300]}; the server's reply to it is {exp[:300]}")
+    if info.get("fault_free"):
+        for rid, (kind, specs) in info["requests"].items():
+            if rid in res and rid not in info["cancelled"] and not (res[rid][1].startswith("ok[") or res[rid][1].startswith("ack(")):
+                out.append(f"request {rid} resolved with {res[rid][1][:80]} although nothing went wrong with the connection")
     # issue order: the request lines on the wire are exactly the requests in the order they were issued
     want = []
     for rid in sorted(info["requests"]):
@@ -392,3 +404,86 @@ def judge_replies(r, info):
         k = next(i for i, (a, c) in enumerate(zip(seen, want + [None] * len(seen))) if a != c)
         out.append(f"request lines reached the wire out of issue order: line {k} is {seen[k]!r}, issue order demands {want[k] if k < len(want) else None!r}")
     return out
+
+
+# ------------------------------------------------------------------------------- select! ties (auto-server mode)
+
+GREETING_HEX = hexs(b"OK MPD 0.23.5\n")
+
+
+def gen_tie_cases(rng, n):
+    """Schedules in which a subsystem change and a request become ready in the same instant, so that the continuation
+    depends on which select! branch tokio picks; the replayer's built-in server answers (no scripted peer is possible).
+    -> [(harness case line, info)]"""
+    out = []
+    for _ in range(n):
+        ops = ["d:" + GREETING_HEX, "A"]
+        info = {"requests": {}, "cancelled": set(), "notified": [], "fault_free": True}
+        rid = 0
+        for _ in range(rng.choice([1, 2, 4, 8])):
+            r = rng.random()
+            rid += 1
+            if r < 0.6:
+                name = rng.choice(SUBSYSTEMS)
+                sp = spec("echo", f"r{rid}", "tie")
+                ops.append(f"z{rid}:{sp};{hexs(name)}")
+                info["requests"][rid] = ("c", [sp])
+                info["notified"].append(name)
+            elif r < 0.8:
+                sp = spec("echo", f"r{rid}", "c0")
+                ops.append(f"c{rid}:{sp}")
+                info["requests"][rid] = ("c", [sp])
+            else:
+                name = rng.choice(SUBSYSTEMS)
+                ops.append("n:" + hexs(name))
+                info["notified"].append(name)
+                rid -= 1
+            ops.append("t" + str(rng.choice([1, 50, 100, 250])))
+        ops += ["t200", "t200"]
+        out.append((" ".join(["loop", "p~"] + ops), info))
+    return out
+
+
+def judge_tie(raw, ops, info):
+    """Oracles for an auto-server run: legal session, own replies, events = changes, re-idled."""
+    r = {"ops": ops[2:], "impl_segs": raw.split(" "), "impl_raw": raw}
+    t = Trace(r)
+    out = []
+    if t.panic:
+        out.append("the client panicked")
+    if t.flag("V"):
+        out.append("the server was waiting in idle and received something other than noidle")
+    res = t.results()
+    for rid, (kind, specs) in info["requests"].items():
+        got = res.get(rid, (None, "<never resolved>"))[1]
+        exp = expected_result(kind, specs)
+        if got != exp:
+            out.append(f"request {rid} ({spec_line(specs[0])}) resolved with {got[:120]}; the server's reply to it is {exp[:120]}")
+    evs = [x for _, x in t.events() if x != "end"]
+    want = [hexs(n) for n in info["notified"]]
+    if evs != want:
+        out.append(f"the server reported {info['notified']}; events delivered: {[unhexs(e).decode(errors='replace') for e in evs]}")
+    lines = [l for _, l in t.written_lines()]
+    if lines and lines[-1] != b"idle":
+        out.append(f"the client did not return to idle (last line {lines[-1]!r}); written: {lines[-8:]}")
+    return out
+
+
+def run_ties(ctx, n_quick=40, n_thorough=800):
+    """-> (failures, count) for the select!-tie schedules (implementation + oracles only)"""
+    from vlib import Failure
+    ties = gen_tie_cases(ctx.rng, n_quick if ctx.tier == "quick" else n_thorough)
+    outs = ctx.run_impl([c for c, _ in ties])
+    fails = []
+    for (c, info), raw in zip(ties, outs):
+        for m in judge_tie(raw, c.split(" "), info)[:2]:
+            fails.append(Failure(c, "[select! tie] " + m + "\n  trace: " + raw[:1200], extra={"tie": True}))
+    return fails, len(ties)
+
+
+def replay_tie(ctx, payload):
+    for c in payload.get("cases", []):
+        for k, raw in enumerate(ctx.run_impl([c] * 8)):
+            print(f"run {k}:", raw[:1500])
+    print("(a select! tie: the outcome depends on tokio's random branch choice; tools/looplib.judge_tie holds the oracles)")
+    return 0
